@@ -33,7 +33,7 @@ pub fn sections(ctx: &Ctx) -> Vec<(&'static str, u64)> {
         ("corpus-type", w1),
         ("stale", trivia * ctx.scale),
         ("w2-trivia", crate::w2::TAILS.len() as u64 * 3 + if ctx.tier == Tier::Quick { 60 } else { 600 }),
-        ("separators", SEPARATOR_SHAPES.len() as u64 * 3),
+        ("separators", (SEPARATOR_SHAPES.len() as u64 + 1) * 3),
     ]
 }
 
@@ -363,7 +363,8 @@ pub fn cases(ctx: &Ctx, section: &str, unit: u64) -> Vec<Case> {
             }
         }
         "separators" => {
-            let shape = SEPARATOR_SHAPES[(unit / 3) as usize % SEPARATOR_SHAPES.len()];
+            let shape_owned = separator_shape((unit / 3) as usize);
+            let shape = shape_owned.as_str();
             let target = [crate::exec::Target::Dx, crate::exec::Target::Vk, crate::exec::Target::Msl][(unit % 3) as usize];
             let mut rng = ctx.rng().sub_n(section, unit);
             let mut task = crate::exec::TaskSpec::compile(0, "test.rssl", target);
@@ -544,6 +545,21 @@ const SEPARATOR_SHAPES: &[&str] = &[
     // (nothing is varied directly after < or >: the statement's first exception)
     "template@@<typename T@@>\nT sep_id(@@T v@@)@@{ return v; }\nstatic const int sep_t = sep_id@@<int@@>(@@4@@)@@;\n",
 ];
+
+/// The hand-written shapes, and one long one: a directive-free run of several thousand tokens
+/// made of two-line macro invocations, with the mark near its start - whatever is put there
+/// moves every later token by a different amount
+fn separator_shape(k: usize) -> String {
+    if k % (SEPARATOR_SHAPES.len() + 1) < SEPARATOR_SHAPES.len() {
+        return SEPARATOR_SHAPES[k % (SEPARATOR_SHAPES.len() + 1)].to_string();
+    }
+    let mut s = String::from("#define LONG_FIELD(t, n) t n;\nstruct@@LongRun@@{\n");
+    for i in 0..900 {
+        s.push_str(&format!("  LONG_FIELD(int,\n    lf_{i})\n"));
+    }
+    s.push_str("};\nstatic LongRun long_run_g;\n");
+    s
+}
 
 const SEPARATORS: &[&str] = &[" ", "\t", "\n", " /* c */ ", "/**/", "\\\n", "  \n\n  ", " // c\n", "\r\n"];
 
@@ -740,7 +756,34 @@ pub fn judge(case: &Case, rep: &mut Report) {
     rep.scenario_digests.insert(digest);
     match case.kind.as_str() {
         "diag-locs" => {
-            let r = run_single(case, ex, rep);
+            // History: a third of the cases run the subject right after a compile, on the same
+            // thread, of the same tree with the same API-level defines but an entry file that is
+            // one comment line longer - every position of that run is wrong for this one
+            let with_history = case.params.gu("variant_seed") % 3 == 0;
+            let r = if with_history {
+                let mut hx = ex.clone();
+                let mut pred = task.clone();
+                pred.subject = false;
+                if let Some(entry) = case.fss[task.fs].resolve(&task.entry, "") {
+                    pred.faults.push(
+                        Fault::new(FaultKind::InsertLines, Sel::File(entry))
+                            .ab(0, 0)
+                            .text("// the compile before this one saw this line\n"),
+                    );
+                }
+                hx.threads[0].tasks.insert(0, pred);
+                let res = run_exec(&hx, &case.fss);
+                rep.history_digests.insert(res.history_digest);
+                rep.count("locs_subjects_run_after_a_compile_of_a_longer_entry_file", 1);
+                let mut it = res.results.into_iter().next().unwrap().into_iter();
+                let p = it.next().unwrap();
+                rep.absorb_task(&p);
+                let r = it.next().unwrap();
+                rep.absorb_task(&r);
+                r
+            } else {
+                run_single(case, ex, rep)
+            };
             if r.kind == OutcomeKind::Panic {
                 rep.findings.push(finding("panic", &r.panic_site, format!("{}: {}", case.label, r.text)));
                 return;
